@@ -309,6 +309,26 @@ def constructor_product(Food, ex):
             continue
         for clause, d in state_problems(obj):
             ex.bad(clause, hist, d)
+    # a series whose three labels carry the " each month" suffix independently (the constructor appends it where it is missing):
+    # whatever mixture the caller wrote, the three labels and the combined list must come out agreeing
+    for mask in itertools.product((False, True), repeat=3):
+        labels = [b + (" each month" if m else "") for b, m in zip(("billion kcals", "thousand tons", "thousand tons"), mask)]
+        hist = ["Food(series, labels %s)" % labels]
+        n += 1
+        try:
+            obj = Food(np.array([1.0, 2.0]), np.array([0.5, 0.25]), np.array([0.5, 0.25]), *labels)
+        except (AssertionError, TypeError, ValueError):
+            continue
+        for clause, d in state_problems(obj):
+            ex.bad(clause, hist, d)
+        # and it must combine with a plainly labelled series of the same units
+        try:
+            plain = Food(np.array([1.0, 2.0]), np.array([0.5, 0.25]), np.array([0.5, 0.25]), "billion kcals each month", "thousand tons each month", "thousand tons each month")
+            res = obj + plain
+            for clause, d in state_problems(res):
+                ex.bad(clause, hist + ["add(x, plainly labelled series)"], d)
+        except AssertionError as e:
+            ex.bad("labels_correct", hist + ["add(x, plainly labelled series)"], "a series constructed with labels %s refuses to combine with the same units written out in full: %r" % (labels, e))
     return n
 
 
